@@ -15,7 +15,13 @@ Conventions
 * the informer cache may lag: `World.views` are the older copies of the NodeClaim that may still be
   handed to `Reconcile` (newest first).  Views never go backwards (a reconcile that was handed a copy
   drops everything older) — that is the behaviour of a watch-fed cache;
-* time is whole seconds since the NodeClaim's creation (`metav1.Time` serialises to seconds).
+* time is whole seconds since the NodeClaim's creation (`metav1.Time` serialises to seconds);
+* a taint is identified by key and effect (`Taint.MatchTaint`, which is all the lifecycle code ever uses to tell
+  taints apart); its value and `timeAdded` are carried along unchanged — a Node never holds two taints with the
+  same key and effect (API validation);
+* the Node's `Ready` condition is four-valued (`NodeReady`: never posted, `Unknown`, `False`, `True`); Nodes that do
+  not carry the instance's provider id are not part of the world (the lifecycle never looks at them — the harness
+  puts such Nodes into the cluster and requires that they are left alone).
 -/
 import Karp.Gen.Lifecycle
 
@@ -24,14 +30,28 @@ open Karp.Gen.Lifecycle
 
 /-! ## Vocabulary -/
 
-/-- a taint as far as `Taint.MatchTaint` can tell: key and effect -/
+/-- `corev1.Taint`: key and effect identify it (`Taint.MatchTaint`); `value` and `timeAdded` ride along — a
+    kubelet started with `--register-with-taints=key=value:effect`, the cloud controller manager and the node
+    lifecycle controller all write taints that carry a value and / or a `timeAdded` stamp -/
 structure Taint where
   key : String
   effect : String
+  value : String := ""
+  /-- `timeAdded` (opaque; "" = nil) -/
+  stamp : String := ""
 deriving Repr, DecidableEq
 
+/-- `Taint.MatchTaint`: same key and effect; value and `timeAdded` are not compared -/
+def Taint.matches (a b : Taint) : Bool := a.key == b.key && a.effect == b.effect
+
+/-- some taint of the list matches `t` -/
+def hasMatch (ts : List Taint) (t : Taint) : Bool := ts.any (fun x => t.matches x)
+
 /-- `v1.UnregisteredNoExecuteTaint` -/
-def unregistered : Taint := ⟨unregisteredTaint.1, unregisteredTaint.2⟩
+def unregistered : Taint := { key := unregisteredTaint.1, effect := unregisteredTaint.2 }
+
+/-- none of the taints is the unregistered taint (by key and effect) -/
+abbrev cleanTaints (ts : List Taint) : Prop := ∀ t ∈ ts, t.matches unregistered = false
 
 /-- `strings.HasPrefix` (on characters; structurally recursive so that it also reduces inside proofs) -/
 def hasPrefix (p s : String) : Bool := p.toList.isPrefixOf s.toList
@@ -43,10 +63,18 @@ def isKnownEphemeral (t : Taint) : Bool :=
 
 /-- `scheduling.Taints.Merge` -/
 def mergeTaints (ts w : List Taint) : List Taint :=
-  w.foldl (fun acc t => if acc.contains t then acc else acc ++ [t]) ts
+  w.foldl (fun acc t => if hasMatch acc t then acc else acc ++ [t]) ts
 
 inductive Tri | unknown | true_ | false_
 deriving Repr, DecidableEq
+
+/-- the Node's `Ready` condition: the kubelet may not have posted it yet (`absent`: `GetCondition` then returns the
+    zero condition, status ""), the node lifecycle controller sets it to `Unknown` when the kubelet stops reporting -/
+inductive NodeReady | absent | unknown | false_ | true_
+deriving Repr, DecidableEq
+
+/-- what `formatTaint` prints into a condition message: key, value, effect — not `timeAdded` -/
+def Taint.shown (t : Taint) : Taint := { t with stamp := "" }
 
 /-- condition reasons the lifecycle controller writes; where the message names an object it is part of the
     reason here (the message takes part in "did the NodeClaim change") -/
@@ -104,10 +132,14 @@ structure Node where
   initLabel : Bool := false
   /-- `karpenter.sh/do-not-sync-taints: "true"` -/
   doNotSync : Bool := false
-  ready : Bool := false
+  /-- `status.conditions[type=Ready].status` -/
+  readyCond : NodeReady := .absent
   /-- allocatable of the requested extended resource is non-zero -/
   resOK : Bool := false
 deriving Repr, DecidableEq
+
+/-- `GetCondition(node, NodeReady).Status == ConditionTrue` -/
+def Node.ready (n : Node) : Bool := n.readyCond == .true_
 
 /-- the immutable part of the NodeClaim spec the lifecycle looks at -/
 structure Spec where
@@ -254,7 +286,7 @@ def launch (f : Faults) (co : CreateOutcome) (c : Ctx) : Ctx :=
 def registerNode (sp : Spec) (mem : Claim) (n : Node) : Node :=
   let ts := if n.doNotSync then n.taints else mergeTaints (mergeTaints n.taints sp.taints) sp.startup
   { n with finalizer := true, ownerRef := true, userLabels := true, provLabels := n.provLabels || mem.provLabels,
-           taints := ts.filter (fun t => t != unregistered), regLabel := true }
+           taints := ts.filter (fun t => !t.matches unregistered), regLabel := true }
 
 def regSuccess (c : Ctx) : Ctx :=
   let c := c.setR .true_ .registered
@@ -281,9 +313,10 @@ def registration (sp : Spec) (f : Faults) (c : Ctx) : Ctx :=
 
 /-! ### `Initialization.Reconcile` -/
 
-/-- `StartupTaintsRemoved`: the first startup taint (in spec order) still on the node -/
+/-- `StartupTaintsRemoved`: for the first startup taint (in spec order) still on the node, the node's taint (first
+    in node order) that matches it -/
 def firstStartupTaint (sp : Spec) (n : Node) : Option Taint :=
-  sp.startup.find? (fun s => n.taints.contains s)
+  sp.startup.findSome? (fun s => n.taints.find? (fun t => s.matches t))
 
 /-- `KnownEphemeralTaintsRemoved`: the first known ephemeral taint (in node order) -/
 def firstEphemeralTaint (n : Node) : Option Taint := n.taints.find? isKnownEphemeral
@@ -302,9 +335,9 @@ def initSuccess (c : Ctx) : Ctx := c.setI .true_ .initialized
 def initBlocker (sp : Spec) (n : Node) : Option Reason :=
   if !n.ready then some .nodeNotReady
   else match firstStartupTaint sp n with
-    | some t => some (.startupTaintsExist t)
+    | some t => some (.startupTaintsExist t.shown)
     | none => match firstEphemeralTaint n with
-      | some t => some (.ephemeralTaintsExist t)
+      | some t => some (.ephemeralTaintsExist t.shown)
       | none => if sp.wantsRes && !n.resOK then some .resourceNotRegistered else none
 
 /-- all checks passed: label the node, then `Initialized = True` -/
@@ -438,7 +471,7 @@ deriving Repr, DecidableEq
 inductive Env
   | nodeAppear (n : Node)
   | nodesGone
-  | setReady (b : Bool)
+  | setReady (r : NodeReady)
   | setRes (b : Bool)
   | addTaint (t : Taint)
   | rmTaint (t : Taint)
@@ -461,10 +494,10 @@ def mapFirst (f : Node → Node) : List Node → List Node
 def applyEnv (w : World) : Env → World
   | .nodeAppear n => if w.instances = 0 then w else { w with nodes := w.nodes ++ [n] }
   | .nodesGone => { w with nodes := [] }
-  | .setReady b => { w with nodes := mapFirst (fun n => { n with ready := b }) w.nodes }
+  | .setReady r => { w with nodes := mapFirst (fun n => { n with readyCond := r }) w.nodes }
   | .setRes b => { w with nodes := mapFirst (fun n => { n with resOK := b }) w.nodes }
-  | .addTaint t => { w with nodes := mapFirst (fun n => if n.taints.contains t then n else { n with taints := n.taints ++ [t] }) w.nodes }
-  | .rmTaint t => { w with nodes := mapFirst (fun n => { n with taints := n.taints.filter (fun x => x != t) }) w.nodes }
+  | .addTaint t => { w with nodes := mapFirst (fun n => if hasMatch n.taints t then n else { n with taints := n.taints ++ [t] }) w.nodes }
+  | .rmTaint t => { w with nodes := mapFirst (fun n => { n with taints := n.taints.filter (fun x => !t.matches x) }) w.nodes }
   | .advance s => { w with now := w.now + s }
   | .userDelete => { w with claim := if w.claim.present then w.claim.deleted else w.claim }
   | .setNodes ns => { w with nodes := ns }
